@@ -416,29 +416,29 @@ package genql
 
 //@ func ValueOf
 //@   nullable query
-//@   ensures literal[C02,C01,C12]: typeis(any, NeutalString) ==> err == nil && result == any(string(any.(NeutalString)))
-//@   ensures number[C02,C01,C12]: typeis(any, *float64) && any.(*float64) != nil ==> err == nil && result == any(*any.(*float64))
+//@   ensures literal[C02,C01,C03,C04,C12]: typeis(any, NeutalString) ==> err == nil && result == any(string(any.(NeutalString)))
+//@   ensures number[C02,C01,C03,C04,C12]: typeis(any, *float64) && any.(*float64) != nil ==> err == nil && result == any(*any.(*float64))
 //@   ensures null-number[C02,C12]: typeis(any, *float64) && any.(*float64) == nil ==> err == nil && result == nil
-//@   ensures column[C02,C01]: typeis(any, ColumnName) && err == nil && !typeis(spec.Read(any(current), string(any.(ColumnName))), CteEvaluation) ==> result == spec.Read(any(current), string(any.(ColumnName)))
+//@   ensures column[C02,C01,C03,C04]: typeis(any, ColumnName) && err == nil && !typeis(spec.Read(any(current), string(any.(ColumnName))), CteEvaluation) ==> result == spec.Read(any(current), string(any.(ColumnName)))
 //@   ensures other[C02,C12]: !typeis(any, NeutalString) && !typeis(any, *float64) && !typeis(any, ColumnName) ==> err == nil && result == any
 //@   ensures unwrapped[C12]: err == nil && !typeis(any, ColumnName) ==> !typeis(result, ColumnName) && !typeis(result, NeutalString) && !typeis(result, *float64)
 
 //@ func AndExpr
-//@   ensures and[C01]: err == nil && spec.JSONValue(callresult(ValueOf, 0, 1)) && spec.JSONValue(callresult(ValueOf, 0, 2)) ==> typeis(callresult(ValueOf, 0, 1), bool) && typeis(callresult(ValueOf, 0, 2), bool) &&
+//@   ensures and[C01,C02,C03,C04]: err == nil && spec.JSONValue(callresult(ValueOf, 0, 1)) && spec.JSONValue(callresult(ValueOf, 0, 2)) ==> typeis(callresult(ValueOf, 0, 1), bool) && typeis(callresult(ValueOf, 0, 2), bool) &&
 //@     | result == (callresult(ValueOf, 0, 1).(bool) && callresult(ValueOf, 0, 2).(bool))
 
 //@ func OrExpr
-//@   ensures or[C01]: err == nil && spec.JSONValue(callresult(ValueOf, 0, 1)) && spec.JSONValue(callresult(ValueOf, 0, 2)) ==> typeis(callresult(ValueOf, 0, 1), bool) && typeis(callresult(ValueOf, 0, 2), bool) &&
+//@   ensures or[C01,C02,C03,C04]: err == nil && spec.JSONValue(callresult(ValueOf, 0, 1)) && spec.JSONValue(callresult(ValueOf, 0, 2)) ==> typeis(callresult(ValueOf, 0, 1), bool) && typeis(callresult(ValueOf, 0, 2), bool) &&
 //@     | result == (callresult(ValueOf, 0, 1).(bool) || callresult(ValueOf, 0, 2).(bool))
 
 //@ func NotExpr
-//@   ensures not[C01]: err == nil && spec.JSONValue(callresult(ValueOf, 0)) ==> typeis(callresult(ValueOf, 0), bool) && result == !callresult(ValueOf, 0).(bool)
+//@   ensures not[C01,C02,C03,C04]: err == nil && spec.JSONValue(callresult(ValueOf, 0)) ==> typeis(callresult(ValueOf, 0), bool) && result == !callresult(ValueOf, 0).(bool)
 
 //@ func IsExpr
-//@   ensures null[C01]: expr.Right == sqlparser.IsNullOp && err == nil ==> result == (callresult(ValueOf, 0) == nil)
-//@   ensures not-null[C01]: expr.Right == sqlparser.IsNotNullOp && err == nil ==> result == (callresult(ValueOf, 0) != nil)
-//@   ensures true[C01]: (expr.Right == sqlparser.IsTrueOp || expr.Right == sqlparser.IsNotFalseOp) && err == nil ==> typeis(callresult(ValueOf, 0), bool) && result == callresult(ValueOf, 0).(bool)
-//@   ensures false[C01]: (expr.Right == sqlparser.IsFalseOp || expr.Right == sqlparser.IsNotTrueOp) && err == nil ==> typeis(callresult(ValueOf, 0), bool) && result == !callresult(ValueOf, 0).(bool)
+//@   ensures null[C01,C02,C03,C04]: expr.Right == sqlparser.IsNullOp && err == nil ==> result == (callresult(ValueOf, 0) == nil)
+//@   ensures not-null[C01,C02,C03,C04]: expr.Right == sqlparser.IsNotNullOp && err == nil ==> result == (callresult(ValueOf, 0) != nil)
+//@   ensures true[C01,C02,C03,C04]: (expr.Right == sqlparser.IsTrueOp || expr.Right == sqlparser.IsNotFalseOp) && err == nil ==> typeis(callresult(ValueOf, 0), bool) && result == callresult(ValueOf, 0).(bool)
+//@   ensures false[C01,C02,C03,C04]: (expr.Right == sqlparser.IsFalseOp || expr.Right == sqlparser.IsNotTrueOp) && err == nil ==> typeis(callresult(ValueOf, 0), bool) && result == !callresult(ValueOf, 0).(bool)
 
 //@ func ExecWhere
 //@   ensures no-where[C01]: query.whereDefinition == nil ==> result && err == nil
@@ -450,21 +450,21 @@ package genql
 //@   modifies nothing
 
 //@ func ComparisonExpr
-//@   ensures eq[C01]: err == nil && expr.Operator == sqlparser.EqualOp && spec.ordered(callresult(ValueOf, 0, 1)) && spec.ordered(callresult(ValueOf, 0, 2)) ==>
+//@   ensures eq[C01,C02,C03,C04]: err == nil && expr.Operator == sqlparser.EqualOp && spec.ordered(callresult(ValueOf, 0, 1)) && spec.ordered(callresult(ValueOf, 0, 2)) ==>
 //@     | result == (spec.Cmp(callresult(ValueOf, 0, 1), callresult(ValueOf, 0, 2)) == 0)
-//@   ensures ne[C01]: err == nil && expr.Operator == sqlparser.NotEqualOp && spec.ordered(callresult(ValueOf, 0, 1)) && spec.ordered(callresult(ValueOf, 0, 2)) ==>
+//@   ensures ne[C01,C02,C03,C04]: err == nil && expr.Operator == sqlparser.NotEqualOp && spec.ordered(callresult(ValueOf, 0, 1)) && spec.ordered(callresult(ValueOf, 0, 2)) ==>
 //@     | result == (spec.Cmp(callresult(ValueOf, 0, 1), callresult(ValueOf, 0, 2)) != 0)
-//@   ensures lt[C01]: err == nil && expr.Operator == sqlparser.LessThanOp && spec.ordered(callresult(ValueOf, 0, 1)) && spec.ordered(callresult(ValueOf, 0, 2)) ==>
+//@   ensures lt[C01,C02,C03,C04]: err == nil && expr.Operator == sqlparser.LessThanOp && spec.ordered(callresult(ValueOf, 0, 1)) && spec.ordered(callresult(ValueOf, 0, 2)) ==>
 //@     | result == (spec.Cmp(callresult(ValueOf, 0, 1), callresult(ValueOf, 0, 2)) < 0)
-//@   ensures le[C01]: err == nil && expr.Operator == sqlparser.LessEqualOp && spec.ordered(callresult(ValueOf, 0, 1)) && spec.ordered(callresult(ValueOf, 0, 2)) ==>
+//@   ensures le[C01,C02,C03,C04]: err == nil && expr.Operator == sqlparser.LessEqualOp && spec.ordered(callresult(ValueOf, 0, 1)) && spec.ordered(callresult(ValueOf, 0, 2)) ==>
 //@     | result == (spec.Cmp(callresult(ValueOf, 0, 1), callresult(ValueOf, 0, 2)) <= 0)
-//@   ensures gt[C01]: err == nil && expr.Operator == sqlparser.GreaterThanOp && spec.ordered(callresult(ValueOf, 0, 1)) && spec.ordered(callresult(ValueOf, 0, 2)) ==>
+//@   ensures gt[C01,C02,C03,C04]: err == nil && expr.Operator == sqlparser.GreaterThanOp && spec.ordered(callresult(ValueOf, 0, 1)) && spec.ordered(callresult(ValueOf, 0, 2)) ==>
 //@     | result == (spec.Cmp(callresult(ValueOf, 0, 1), callresult(ValueOf, 0, 2)) > 0)
-//@   ensures ge[C01]: err == nil && expr.Operator == sqlparser.GreaterEqualOp && spec.ordered(callresult(ValueOf, 0, 1)) && spec.ordered(callresult(ValueOf, 0, 2)) ==>
+//@   ensures ge[C01,C02,C03,C04]: err == nil && expr.Operator == sqlparser.GreaterEqualOp && spec.ordered(callresult(ValueOf, 0, 1)) && spec.ordered(callresult(ValueOf, 0, 2)) ==>
 //@     | result == (spec.Cmp(callresult(ValueOf, 0, 1), callresult(ValueOf, 0, 2)) >= 0)
 
 //@ func BetweenExpr
-//@   ensures inclusive[C01]: err == nil && spec.ordered(callresult(ValueOf, 0, 1)) && spec.ordered(callresult(ValueOf, 0, 2)) && spec.ordered(callresult(ValueOf, 0, 3)) ==>
+//@   ensures inclusive[C01,C02,C03,C04]: err == nil && spec.ordered(callresult(ValueOf, 0, 1)) && spec.ordered(callresult(ValueOf, 0, 2)) && spec.ordered(callresult(ValueOf, 0, 3)) ==>
 //@     | result == (expr.IsBetween == (spec.Cmp(callresult(ValueOf, 0, 1), callresult(ValueOf, 0, 2)) >= 0 && spec.Cmp(callresult(ValueOf, 0, 1), callresult(ValueOf, 0, 3)) <= 0))
 
 //@ func BinaryExpr
@@ -789,10 +789,10 @@ package genql
 
 // C02: a numeric literal means what strconv.ParseFloat reads in its text (decimal; no octal, no hex), a string literal its text
 //@ func LiteralExpr
-//@   ensures number[C02,C16]: err == nil && (callresult(BuildLiteral, 0) == sqlparser.IntVal || callresult(BuildLiteral, 0) == sqlparser.FloatVal || callresult(BuildLiteral, 0) == sqlparser.DecimalVal) ==>
+//@   ensures number[C01,C02,C03,C04,C16]: err == nil && (callresult(BuildLiteral, 0) == sqlparser.IntVal || callresult(BuildLiteral, 0) == sqlparser.FloatVal || callresult(BuildLiteral, 0) == sqlparser.DecimalVal) ==>
 //@     | called(ParseFloat) && result == any(callresult(ParseFloat, 0))
-//@   ensures text[C02,C16]: err == nil && callresult(BuildLiteral, 0) == sqlparser.StrVal ==> result == any(NeutalString(callresult(BuildLiteral, 1)))
-//@   at-call ParseFloat assert whole-text-as-a-double[C02,C16]: arg0 == callresult(BuildLiteral, 1) && arg1 == 64
+//@   ensures text[C01,C02,C03,C04,C16]: err == nil && callresult(BuildLiteral, 0) == sqlparser.StrVal ==> result == any(NeutalString(callresult(BuildLiteral, 1)))
+//@   at-call ParseFloat assert whole-text-as-a-double[C01,C02,C03,C04,C16]: arg0 == callresult(BuildLiteral, 1) && arg1 == 64
 
 // ---------------------------------------------------------------------------
 // C04: joins. The hash path answers ON only when ON is a conjunction of equalities; the nested-loop path emits a pair
@@ -959,8 +959,8 @@ package genql
 // which may be the caller's object, never gets the entry (a store into it fails the frame obligation of C11)
 //@ func ComparisonExpr
 //@   at-call navigable assert the-copy-is-of-the-current-row[C01,C11]: arg0 == query && arg1 == current
-//@   at-call Expr assert operands-are-read-from-the-copy-of-the-row[C01]: arg0 == query && arg1 == callresult(navigable, 0)
-//@   at-call ValueOf assert operands-are-resolved-on-the-copy-of-the-row[C01]: arg0 == query && arg1 == callresult(navigable, 0)
+//@   at-call Expr assert operands-are-read-from-the-copy-of-the-row[C01,C02,C03,C04]: arg0 == query && arg1 == callresult(navigable, 0)
+//@   at-call ValueOf assert operands-are-resolved-on-the-copy-of-the-row[C01,C02,C03,C04]: arg0 == query && arg1 == callresult(navigable, 0)
 
 // C12/C14/C11: what a query adopted while it was built (a derived table's or a join side's deferred work) is still there when
 // the run begins: the list of post processors is not reset
